@@ -580,6 +580,16 @@ impl Inner
                 }
                 code
             },
+            "cp" if w.len() == 4 && w[1] == "-p" =>
+            {
+                // cp -p A B : data, modification time and mode of A
+                self.touch(w[2], false);
+                let src = match self.fs.file(w[2]) { Some(f) => f.clone(), None => return 1 };
+                let id = match self.do_create(w[3]) { Ok(id) => id, Err(_) => return 1 };
+                if !src.data.is_empty() { self.do_write(id, 0, &src.data); }
+                if let Some(f) = self.fs.find_by_id(id) { f.mtime = src.mtime; f.exec = src.exec; }
+                0
+            },
             "cp" =>
             {
                 if w.len() != 3 { return 2; }
@@ -701,6 +711,7 @@ pub fn script_footprint(lines: &[String]) -> (Vec<String>, Vec<String>)
             "cp" =>
             {
                 if w.len() == 3 { reads.push(w[1].to_string()); writes.push(w[2].to_string()); }
+                if w.len() == 4 { reads.push(w[2].to_string()); writes.push(w[3].to_string()); }
             },
             "chmod" | "rm" =>
             {
